@@ -21,6 +21,30 @@ def has_fact(te, bb, pred, truth):
     return False
 
 
+BDD_VARIANTS = {"Compl", "Reg", "PtrTrue", "PtrFalse"}
+
+
+def possible_variants(te, bb, x):
+    """variants a BddPtr-valued term x can have at block bb, from the dominating branch facts
+    (is_neg / is_false / is_true tests and matches on x's discriminant)"""
+    poss = set(BDD_VARIANTS)
+    for c, val, vm, _ in te.facts_at(bb):
+        c = strip(c)
+        if c[0] == "call" and c[1].name in ("is_neg", "is_false", "is_true", "is_const") and c[2] and strip(c[2][-1]) == x:
+            sel = {"is_neg": {"Compl"}, "is_false": {"PtrFalse"}, "is_true": {"PtrTrue"}, "is_const": {"PtrTrue", "PtrFalse"}}[c[1].name]
+            poss &= sel if val != "0" else (BDD_VARIANTS - sel)
+        if c[0] == "discr" and strip(c[1]) == x and vm:
+            def names(labels):
+                return {vm.get(str(l), str(l)) for l in labels}
+            if isinstance(val, tuple) and val[0] == "in":
+                poss &= names(val[1])
+            elif isinstance(val, tuple) and val[0] == "not":
+                poss -= names(val[1])
+            else:
+                poss &= names([val])
+    return poss
+
+
 def eq_of(a, b):
     def p(c):
         if c[0] == "bin" and c[1] == "Eq":
@@ -63,9 +87,10 @@ def rn2(prog):
         raise CheckerError("RN2: expected one Reg and one Compl construction in get_or_insert")
     bb, t, line = regs[0]
     errs = []
-    if not has_fact(te, bb, lambda c: mir.is_call(c, "is_neg") and strip(c[2][0]) == fld("high"), False):
+    poss = possible_variants(te, bb, fld("high"))
+    if "Compl" in poss:
         errs.append("Reg(..) is reachable with a complemented high child")
-    if not has_fact(te, bb, lambda c: mir.is_call(c, "is_false") and strip(c[2][0]) == fld("high"), False):
+    if "PtrFalse" in poss:
         errs.append("Reg(..) is reachable with a false high child")
     src = strip(t[4][0])
     if not (mir.is_call(src, "get_or_insert") and mir.is_call(strip(src[2][-1]), "new")
